@@ -796,7 +796,7 @@ mod proofs {
     /// (a*b)(X) in Z_q[X]/(X^2+1), coefficient form
     fn nmul2(a: [u64; 2], b: [u64; 2], q: u64) -> [u64; 2] { [(a[0] * b[0] + q * q - a[1] * b[1]) % q, (a[0] * b[1] + a[1] * b[0]) % q] }
 
-    // @harness id=C04 tier=thorough unwind=14 timeout=14000 fs=4096 mem=40
+    // @harness id=C04 tier=deep unwind=14 timeout=14000 fs=4096 mem=40
     // @desc key-switching lemma at a LOWER level of the chain: for any key-switching key whose digit satisfies the RLWE relation ksk = (-(a*s) - e + P*s' [digit component], a) with arbitrary mask a and error |e| <= 21, switch_key_inplace_internal turns (c0, c1) into a ciphertext whose phase under s is phase_in + target*s' + delta with |delta| <= 30 (so relinearisation, Galois rotation and secret-key switching preserve the plaintext); the special prime's component and NTT table are the ones used for the extra RNS slot at every level
     // @bounds BFV N=2, chain {97,113,193} (special prime 193), ciphertext at the LAST level {97} (decomposition size 1 < key size - 1); all ciphertext/target residues, all ternary s and s', all masks, all errors in [-21,21]
     // @funcs Evaluator::switch_key_inplace_internal, polysmallmod::{ntt_lazy,intt_lazy,modulo,multiply_operand_inplace,add_inplace}, barrett_reduce_u128, PublicKey::is_valid_for
